@@ -734,6 +734,8 @@ class Analysis:
             ups = cur.get('up', [])
             if cur['op'] == 'source':
                 ps = [p for p in self.sc['producers'] if p['entry'] == cur['id']]
+                if any(m.get('kind') == 'emit_into' and m.get('target') == cur['id'] for m in self.sc['graph']):
+                    return False
                 return len(ps) == 1 and ps[0].get('await', True) and self.emits_wait(cur['id'])
             if len(ups) != 1:
                 return False
@@ -834,6 +836,8 @@ class Analysis:
                 return False
             if cur['op'] == 'source':
                 ps = [p for p in self.sc['producers'] if p['entry'] == cur['id']]
+                if any(m.get('kind') == 'emit_into' and m.get('target') == cur['id'] for m in self.sc['graph']):
+                    return False
                 if not (len(ps) == 1 and ps[0].get('await', True) and self.emits_wait(cur['id'])):
                     return False
                 # the source must feed this zip through this port only
@@ -1020,6 +1024,13 @@ class Analysis:
                                 if any(x[0] == elem for x in a.md):
                                     why = '%s %d is still handling %r (started t=%g)' % (a.kind, a.node, a.value, a.t)
                                     break
+                                # provenance by value: the element itself is inside what the consumer handles although the
+                                # metadata delivered with it does not say so (below a one-to-many node metadata legitimately
+                                # travels with the last piece only, so this is not applied there)
+                                if not self.below_one_to_many(a.node) and elem in fns.tokens(a.value):
+                                    why = '%s %d is still handling %r, which contains it (the metadata delivered with that value does not name it)' % (
+                                        a.kind, a.node, a.value)
+                                    break
                         if why is None:
                             for i in open_ins:
                                 if any(x[0] == elem for x in i.md):
@@ -1050,6 +1061,18 @@ class Analysis:
                     c05_done = True
         return V
 
+    def below_one_to_many(self, nid):
+        cache = self.__dict__.setdefault('_b1m', {})
+        if nid not in cache:
+            cache[nid] = False       # (cycle guard for feedback graphs)
+            n = self.spec[nid]
+            cache[nid] = n['op'] == 'flatten' or any(self.below_one_to_many(u) for u in n.get('up', []))
+            if not cache[nid]:
+                for fb in self.sc.get('feedback', []):
+                    if fb['to'] == nid and self.below_one_to_many(fb['from']):
+                        cache[nid] = True
+        return cache[nid]
+
     def _will_own_fail(self, i):
         return i.own_fail
 
@@ -1074,6 +1097,8 @@ def reference_sinks(sc):
         n = spec[nid]
         if n['op'] == 'sink':
             got[nid].append(x)
+            if n.get('kind') == 'emit_into':
+                emit(n['target'], x, ())
             return
         if n['op'] == 'slice':
             end = n.get('end')
